@@ -78,6 +78,10 @@ def build_facts(config="default", repo=REPO, cache=CACHE):
         hsh = tree_hash(repo)
         out = os.path.join(cache, "facts-%s-%s.jsonl" % (config, hsh))
         if os.path.exists(out) and os.path.getsize(out) > 1000:
+            try:
+                os.utime(out)       # most recently used = newest: concurrent runs on other trees evict the oldest file only
+            except OSError:
+                pass
             return out
         target = os.path.join(cache, "target-" + config)
         # cargo's freshness cache would skip the wrapper: drop the member's fingerprints
